@@ -419,6 +419,96 @@ func c05Refs(stack []string, n, k, ps int, salt string) string {
 	return fmt.Sprintf("refs [%s] end=%s calls=%d", strings.Join(got, " "), end, calls)
 }
 
+// c05RefsErr: `ls refserr <stack> <n> <j> <code> <salt>`: a backend whose Referrers listing delivers j of its n items and then
+// fails with <code>. Whatever the stack, the listing the caller sees ends in an error or is complete - never "done" with
+// fewer than n items - and what is delivered is a prefix of the sorted listing.
+func c05RefsErr(stack []string, n, j int, code, salt string) string {
+	ctx := context.Background()
+	var all []ociregistry.Descriptor
+	for i := 0; i < n; i++ {
+		b := c05Referrer(salt, i)
+		all = append(all, ociregistry.Descriptor{MediaType: c05Idx, Digest: ociregistry.Digest(sha256Digest(b)), Size: int64(len(b))})
+	}
+	sort.Slice(all, func(a, b int) bool { return all[a].Digest < all[b].Digest })
+	var ferr error = ociregistry.ErrManifestUnknown
+	switch code {
+	case "DENIED":
+		ferr = ociregistry.ErrDenied
+	case "NAME_UNKNOWN":
+		ferr = ociregistry.ErrNameUnknown
+	case "PLAIN":
+		ferr = fmt.Errorf("backend broke")
+	}
+	var reg ociregistry.Interface = &ociregistry.Funcs{
+		Referrers_: func(ctx context.Context, repo string, dg ociregistry.Digest, at string) ociregistry.Seq[ociregistry.Descriptor] {
+			return func(yield func(ociregistry.Descriptor, error) bool) {
+				for i := 0; i < j && i < len(all); i++ {
+					if !yield(all[i], nil) {
+						return
+					}
+				}
+				yield(ociregistry.Descriptor{}, ferr)
+			}
+		},
+	}
+	var closers []func()
+	defer func() {
+		for i := len(closers) - 1; i >= 0; i-- {
+			closers[i]()
+		}
+	}()
+	for _, layer := range stack {
+		switch layer {
+		case "debug":
+			reg = ocidebug.New(reg, func(string, ...any) {})
+		case "select":
+			reg = ocifilter.Select(reg, func(repo string) bool { return !c05Hidden(repo) })
+		case "sub":
+			reg = ocifilter.Sub(reg, "p")
+		case "wire":
+			ch := newChain(reg, 1, &ociserver.Options{}, &ociclient.Options{})
+			closers = append(closers, ch.Close)
+			reg = ch.regs[1]
+		}
+	}
+	var got []string
+	end := "done"
+	reg.Referrers(ctx, c05Repo, c05RefsSubject(salt).Digest, "")(func(d ociregistry.Descriptor, err error) bool {
+		if end != "done" {
+			end = "called-after-error"
+			return false
+		}
+		if err != nil {
+			end = "error"
+			return false
+		}
+		got = append(got, string(d.Digest))
+		return true
+	})
+	for i, g := range got {
+		if i >= len(all) || g != string(all[i].Digest) {
+			return fmt.Sprintf("refserr item %d is not item %d of the sorted listing", i, i)
+		}
+	}
+	if end == "done" && len(got) < n {
+		return fmt.Sprintf("refserr silently short: %d of %d referrers and no error (the backend failed after %d)", len(got), n, j)
+	}
+	if end == "called-after-error" {
+		return "refserr called-after-error"
+	}
+	return "refserr ok"
+}
+
+func c05RefsErrParse(l string) (stack []string, n, j int, code, salt string, ok bool) {
+	t := strings.Split(l, " ")
+	if len(t) != 7 || t[0] != "ls" || t[1] != "refserr" {
+		return nil, 0, 0, "", "", false
+	}
+	n, _ = strconv.Atoi(t[3])
+	j, _ = strconv.Atoi(t[4])
+	return strings.Split(t[2], "+"), n, j, t[5], t[6], true
+}
+
 func (*c05) Impl(c Case) []string {
 	out := make([]string, len(c.Lines))
 	for i, l := range c.Lines {
@@ -434,6 +524,9 @@ func (*c05) Impl(c Case) []string {
 			}
 			if stack, n, k, ps, salt, ok := c05RefsParse(l); ok {
 				return c05Refs(stack, n, k, ps, salt)
+			}
+			if stack, n, j, code, salt, ok := c05RefsErrParse(l); ok {
+				return c05RefsErr(stack, n, j, code, salt)
 			}
 			s, ok := parseC05(l)
 			if !ok {
@@ -650,6 +743,14 @@ func (*c05) Gen(rng *RNG, tier string) []Case {
 		}
 		cases = append(cases, Case{Tag: "refs", Lines: []string{fmt.Sprintf("ls refs %s %d %s %d s%d", stack, cnt, k, pick(rng, []int{0, 1, 3, 1000}), rng.Intn(1000))}})
 	}
+	// a backend whose referrers listing fails part-way, under every wrapper and behind the wire
+	for _, stack := range []string{"mem", "wire", "wire+wire", "debug", "select", "sub", "wire+debug", "debug+wire", "select+wire", "sub+wire", "wire+sub"} {
+		for _, code := range []string{"MANIFEST_UNKNOWN", "NAME_UNKNOWN", "DENIED", "PLAIN"} {
+			for _, nj := range [][2]int{{3, 0}, {3, 1}, {3, 2}, {1, 0}} {
+				cases = append(cases, Case{Tag: "refserr", Lines: []string{fmt.Sprintf("ls refserr %s %d %d %s s%d", stack, nj[0], nj[1], code, rng.Intn(1000))}})
+			}
+		}
+	}
 	for i := 0; i < n; i++ {
 		what := pick(rng, []string{"repos", "tags"})
 		stack := pick(rng, stacks)
@@ -734,6 +835,18 @@ func (*c05) Oracle(c Case, impl []string) []Failure {
 			}
 			continue
 		}
+		if _, _, _, _, _, ok := c05RefsErrParse(l); ok {
+			if impl[i] != "refserr ok" {
+				class := "list-referrers-short"
+				if impl[i] == "panic" {
+					class = "list-panic"
+				} else if strings.Contains(impl[i], "called-after") {
+					class = "list-consumer-protocol"
+				}
+				fs = append(fs, Failure{Class: class, Oracle: "complete_or_error", Index: i, Expected: "refserr ok", Observed: impl[i]})
+			}
+			continue
+		}
 		if _, n, k, _, salt, ok := c05RefsParse(l); ok {
 			if want := c05RefsExpected(n, k, salt); impl[i] != want {
 				class := "list-referrers-differs"
@@ -793,6 +906,9 @@ func (*c05) Oracle(c Case, impl []string) []Failure {
 }
 
 func (*c05) NonTrivial(c Case, impl []string) (bool, string) {
+	if stack, _, j, _, _, ok := c05RefsErrParse(c.Lines[0]); ok {
+		return j > 0, "refserr:" + strings.Join(stack, "+")
+	}
 	if stack, n, _, _, _, ok := c05RefsParse(c.Lines[0]); ok {
 		return n > 0, "refs:" + strings.Join(stack, "+")
 	}
